@@ -15,14 +15,19 @@ use crate::statics::{FileData, FileDatabase};
 const T_ALL: [char; 16] = [
     'a', '7', '_', '.', '/', '*', '"', '\'', '\\', '\n', ' ', 'é', '😀', 'x', 'n', '+',
 ];
-// comment bodies: `*`, `/`, newline, a letter, a multi-byte char, space
-const T_CMT: [char; 6] = ['*', '/', '\n', 'a', 'é', ' '];
-// escapes: backslash, x, n, both quotes, hex digits a 7, `+` (accepted by from_str_radix), multi-byte
-const T_ESC: [char; 10] = ['\\', 'x', 'n', '"', '\'', 'a', '7', '+', 'é', '😀'];
-// numbers: digit, `_`, `.`, letter, space, multi-byte
-const T_NUM: [char; 6] = ['7', '_', '.', 'a', ' ', 'é'];
-// span harness: one-char tokens, digit, letter, blank, newline, 2-byte, 4-byte
-const T_SPAN: [char; 7] = ['*', '7', 'a', ' ', '\n', 'é', '😀'];
+// Rule for every alphabet below: it contains SPECIAL = { \ " ' newline * / }, i.e. every char
+// that is special to SOME scanner in lexer.rs (escape pairs and string delimiters of
+// scan_for_unescaped_delim / process_escapes_into, the line-comment terminator, the block-comment
+// delimiters) -- re-using a scanner in the wrong context (e.g. the string scanner, which
+// treats `\` as an escape, to skip comments) is only visible on such chars.
+// comment bodies: SPECIAL, a letter, a multi-byte char, space
+const T_CMT: [char; 9] = ['*', '/', '\n', 'a', 'é', ' ', '\\', '"', '\''];
+// escapes: SPECIAL, x, n, hex digits a 7, `+` (accepted by from_str_radix), multi-byte
+const T_ESC: [char; 13] = ['\\', 'x', 'n', '"', '\'', 'a', '7', '+', 'é', '😀', '\n', '*', '/'];
+// numbers: SPECIAL, digit, `_`, `.`, `-`, letter, space, multi-byte
+const T_NUM: [char; 13] = ['7', '_', '.', 'a', ' ', 'é', '-', '\\', '"', '\'', '\n', '*', '/'];
+// span harness: SPECIAL (minus nothing), one-char tokens, digit, letter, blank, 2-byte, 4-byte
+const T_SPAN: [char; 11] = ['*', '7', 'a', ' ', '\n', 'é', '😀', '\\', '"', '\'', '/'];
 
 fn pick<const K: usize>(t: &[char; K]) -> char {
     let i: u8 = kani::any();
@@ -360,7 +365,7 @@ fn check_escapes<const N: usize>(inp: &Input<N>) {
 #[kani::stub(std::string::String::push, stub_push_log)]
 fn escapes() {
     const N: usize = @N_ESC@;
-    let inp = any_input::<N, 10>(&T_ESC);
+    let inp = any_input::<N, 13>(&T_ESC);
     check_escapes::<N>(&inp);
 }
 
@@ -386,7 +391,7 @@ fn escapes_hex() {
 #[kani::stub(core::str::count::count_chars, stub_count_chars)]
 fn handle_num_post() {
     const N: usize = @N_NUM@;
-    let inp = any_input::<N, 6>(&T_NUM);
+    let inp = any_input::<N, 13>(&T_NUM);
     let k: u8 = kani::any();
     let k = k as usize;
     kani::assume(k < inp.len);
@@ -465,7 +470,7 @@ fn handle_num_post() {
 #[kani::unwind(@U_CMT@)]
 fn line_comment_skip() {
     const N: usize = @N_CMT@;
-    let inp = any_input::<N, 6>(&T_CMT);
+    let inp = any_input::<N, 9>(&T_CMT);
     // text = "//" ++ body
     let mut a = ['\0'; N + 2];
     a[0] = '/';
@@ -495,7 +500,7 @@ fn line_comment_skip() {
 #[kani::unwind(@U_CMT@)]
 fn block_comment_skip() {
     const N: usize = @N_CMT@;
-    let inp = any_input::<N, 6>(&T_CMT);
+    let inp = any_input::<N, 9>(&T_CMT);
     // text = "/*" ++ cs[..len]   (the comment body, its terminator if any, and what follows)
     let mut a = ['\0'; N + 2];
     a[0] = '/';
@@ -728,7 +733,7 @@ fn keyword_table() {
 #[kani::stub(core::str::count::count_chars, stub_count_chars)]
 fn span_byte_offsets() {
     const N: usize = @N_SPAN@;
-    let inp = any_input::<N, 7>(&T_SPAN);
+    let inp = any_input::<N, 11>(&T_SPAN);
     let k: u8 = kani::any();
     let k = k as usize;
     kani::assume(k < inp.len);
